@@ -256,6 +256,12 @@ func (m c08) program(c *core.Ctx, src string, mods map[string]string, bm []strin
 					if r.o.Kind == "error" {
 						c.Count("error_outcomes_formatted")
 					}
+					if r.o.Kind == "timeout" || want.Kind == "timeout" {
+						// the 20 s watchdog of the harness fired (32 race-instrumented VMs on a loaded machine): a wall
+						// clock is not a verdict on what the run returns
+						c.Inconclusive("a run hit the harness watchdog: " + fmt.Sprintf("%x", hashStr(src)))
+						continue
+					}
 					if r.o.Key(true) != want.Key(true) {
 						why := "a concurrent run returned something else than the same run alone"
 						c.Violation("C08|diff|"+fmt.Sprintf("%x", hashStr(src)), why, c08wit{Src: src, Modules: mods, N: n, Reuse: reuse, Decoded: decoded, Why: why, Solo: want, Conc: r.o})
